@@ -91,8 +91,9 @@ void vh_init(int tier)
         kx_set_add(&IN_SET[0], "ACGTACTTG", "d3");
         kx_set_init(&IN_SET[1]);
         kx_set_add(&IN_SET[1], "LKWDELKWAV", "p1");
-        kx_set_add(&IN_SET[1], "LKWELKWAV", "p2");
-        kx_set_add(&IN_SET[1], "LKWDELKAV", "p3");
+        /* U, O and J are legal letters outside the 20 + B/Z/X the alphabets know: the library warns about them (on standard error) */
+        kx_set_add(&IN_SET[1], "LKWELKUAV", "p2");
+        kx_set_add(&IN_SET[1], "LKODELKJV", "p3");
         {
                 char* t = kx_fasta_text(&IN_SET[0], 0);
                 vh_write_file(P_DNA, t, strlen(t));
